@@ -175,6 +175,8 @@ def run_case(c):
         f = lambda: model.copy_with_fixed_priors(instance)
     else:
         raise ValueError(k)
+    if c.get("frozen"):
+        model.freeze()          # searches freeze the model; results are built from that model
     try:
         new_model = f()
     except BaseException as e:  # noqa
